@@ -379,6 +379,29 @@ func (e *evaluator) path(v ssa.Value) string {
 		return e.eval(x).String()
 	case *ssa.Phi:
 		return "phi:" + x.Comment
+	case *ssa.Call:
+		if t, ok := e.env[v]; ok {
+			return t.String()
+		}
+		// a constructor of the analysed packages (every return is a fresh allocation): the object it
+		// returns is a local of the caller in all but name
+		if g := calleeOf(x); g != nil && inAnalysed(g) && len(g.Blocks) > 0 {
+			fresh := true
+			n := 0
+			for _, ret := range returnsOf(g) {
+				if len(ret.Results) != 1 {
+					fresh = false
+					break
+				}
+				if _, ok := ret.Results[0].(*ssa.Alloc); !ok {
+					fresh = false
+				}
+				n++
+			}
+			if fresh && n > 0 {
+				return "local:new" + g.Name()
+			}
+		}
 	}
 	if t, ok := e.env[v]; ok {
 		return t.String()
@@ -629,8 +652,23 @@ func (e *evaluator) eval1(v ssa.Value) *term {
 		} else if x.Call.IsInvoke() {
 			name = "invoke." + x.Call.Method.Name()
 			args = append([]*term{e.eval(x.Call.Value)}, args...)
+		} else {
+			// a call through a function value that is bound (by E11, through a parameter) or defined
+			// right here as a method value: the call of that method on its bound receiver
+			if bt := e.eval(x.Call.Value); bt != nil && bt.op == "boundmethod" {
+				return ON("call", bt.name, append(append([]*term{}, bt.args...), args...)...)
+			}
 		}
 		return ON("call", name, args...)
+	case *ssa.MakeClosure:
+		// a method value x.M: the synthetic bound-method wrapper with the receiver as its only binding
+		if fn, ok := x.Fn.(*ssa.Function); ok && strings.Contains(fn.Synthetic, "bound method wrapper") && len(x.Bindings) == 1 {
+			if obj, ok := fn.Object().(*types.Func); ok {
+				if m := e.p.Prog.FuncValue(obj); m != nil {
+					return &term{op: "boundmethod", name: funcID(m), args: []*term{e.eval(x.Bindings[0])}}
+				}
+			}
+		}
 	case *ssa.FieldAddr, *ssa.IndexAddr, *ssa.Global, *ssa.Alloc:
 		return S("&" + e.path(v))
 	case *ssa.TypeAssert:
